@@ -23,6 +23,7 @@ Proof.
   destruct (uid_field fx (cc_issuer_uid c)); [|discriminate].
   destruct (uid_field fx (cc_subject_uid c)); [|discriminate].
   destruct (map_opt _ (cc_exts c)); [|discriminate].
+  match goal with H : (if ?X then None else _) = Some _ |- _ => destruct X eqn:?; [discriminate H|] end.
   inversion H; subst; clear H. cbn [t_version t_inner t_outer t_serial or_default].
   split; [reflexivity|]. split; [reflexivity|].
   split.
